@@ -5,7 +5,9 @@
 enum { A15_U8 = 0, A15_I16, A15_I32, A15_U64, A15_F32, A15_F64, A15_POD, A15_STRING, A15_CSTRING, A15_VEC_INT, A15_VEC_STRING, A15_VEC_VEC_INT,
        A15_ARRAYVIEW, A15_OWNEDARRAY, A15_FIXEDARRAY, A15_FIXEDARRAYVIEW,
        // vectors whose elements go through the generic (raw bytes) operators: 1, 2, 3, 4, 8 and 24 bytes each, trivial and not
-       A15_VEC_U8, A15_VEC_I16, A15_VEC_RGB, A15_VEC_PAIR16, A15_VEC_TAG, A15_VEC_F64, A15_VEC_POD, A15_NTYPES };
+       A15_VEC_U8, A15_VEC_I16, A15_VEC_RGB, A15_VEC_PAIR16, A15_VEC_TAG, A15_VEC_F64, A15_VEC_POD,
+       // vectors of C strings (nested or not): each element travels as a string and reads back into a std::string
+       A15_VEC_CSTRING, A15_VEC_VEC_CSTRING, A15_NTYPES };
 struct A15Value
 {
   int type;
